@@ -127,8 +127,86 @@ class H(common.Harness):
         return fs
 
 
+class HAppend(common.Harness):
+    """lemma: Tokenizer.append_text(tokens, text) only appends, the appended pieces are " " or non-empty
+    space-free words, and their concatenation is `text` - for every text of <= N symbolic characters."""
+
+    def __init__(self, params):
+        super().__init__(params)
+        import eyecite.tokenizers as T
+
+        from vf import symre
+
+        self.T, self.symre = T, symre
+        self.N = params["N"]
+        symre.install(self.interp)
+
+    def run(self):
+        eng = self.eng
+        n = 1 + eng.choose([z3.Int("len") == k for k in range(1, self.N + 1)])
+        s = self.symre.CStr.fresh(eng, n)
+        self.s = s
+        sentinel = object()
+        tokens = [sentinel]
+        self.interp.call(self.T.Tokenizer.append_text, (tokens, s), {})
+        return sentinel, tokens
+
+    def witness(self, m):
+        return {"text": self.s.concrete(m)}
+
+    def describe(self, kind, out):
+        m = self.eng.path_model()
+        return self.witness(m) if m is not None else {}
+
+    def judge(self, kind, out):
+        if kind == "exc":
+            return [self.check("append_text:no_exception:" + type(out).__name__, False, self.witness)]
+        sentinel, tokens = out
+        CStr = self.symre.CStr
+        ok = len(tokens) >= 1 and tokens[0] is sentinel
+        cat = CStr([])
+        shape = True
+        for p in tokens[1:]:
+            if isinstance(p, str):
+                p = CStr.lit(p)
+            if not isinstance(p, CStr) or len(p) == 0:
+                shape = False
+                break
+            is_space = len(p) == 1 and self.eng.implied(p.chars[0] == 32) if not isinstance(p.chars[0], int) else (len(p) == 1 and p.chars[0] == 32)
+            if not is_space:
+                for ch in p.chars:
+                    free = (ch != 32) if isinstance(ch, int) else self.eng.implied(ch != 32)
+                    if not free:
+                        shape = False
+            cat = cat + p
+        same = ok and shape and bool(self.symre.same(cat, self.s, self.eng))
+        return [
+            self.check("append_text:only_appends", z3.BoolVal(ok), self.witness),
+            self.check("append_text:pieces_are_space_or_spacefree_words", z3.BoolVal(shape), self.witness),
+            self.check("append_text:concatenation_is_argument", z3.BoolVal(same), self.witness),
+        ]
+
+
 def make(params):
-    return H(params)
+    return HAppend(params) if params.get("lemma") == "append_text" else H(params)
+
+
+def replay_append(w):
+    import eyecite.tokenizers as T
+
+    toks = ["<sentinel>"]
+    try:
+        T.Tokenizer.append_text(toks, w["text"])
+    except Exception as ex:
+        return ["append_text:no_exception:" + type(ex).__name__], None
+    bad = []
+    if toks[0] != "<sentinel>":
+        bad.append("append_text:only_appends")
+    if any(not (p == " " or (p and " " not in p)) for p in toks[1:]):
+        bad.append("append_text:pieces_are_space_or_spacefree_words")
+    if "".join(toks[1:]) != w["text"]:
+        bad.append("append_text:concatenation_is_argument")
+    return bad, toks[1:]
 
 
 # ---------------------------------------------------------------- replay on the real code
@@ -307,6 +385,33 @@ def check(rep):
     rep.oblige(n_ob - n_ok, ok=False)
     rep.oblige(n_ok)
     rep.distinct = agg["paths"]
+    # the append_text lemma that justifies the summary used above
+    NA = 6 if rep.tier == "quick" else 9
+    rep.bounds.append(f"append_text lemma: every text of 1..{NA} symbolic code points")
+    agg_a = common.explore_split("vf.harness.c12", {"lemma": "append_text", "N": NA}, depth=4)
+    rep.merge_explore("append_text_lemma", agg_a)
+    n_ob = sum(agg_a["verdicts"].values())
+    n_ok = sum(v for k, v in agg_a["verdicts"].items() if k.endswith(":valid"))
+    rep.oblige(n_ob - n_ok, ok=False)
+    rep.oblige(n_ok)
+    seen_a = set()
+    for f in agg_a["findings"]:
+        if f["verdict"] != "cex":
+            rep.inconc(f"append_text lemma {f['clause']}: solver verdict {f['verdict']}")
+            continue
+        rep.replays += 1
+        bad, got = replay_append(f["witness"])
+        if bad:
+            if tuple(bad) not in seen_a:
+                seen_a.add(tuple(bad))
+                txt = f["witness"]["text"]
+                # the same text through the public tokenizer: plain text has no extractor matches
+                a, b = T.default_tokenizer.tokenize("zq" + txt + "qz")
+                conc = concrete_check("zq" + txt + "qz", a, b)
+                rep.violation(f"Tokenizer.append_text([], {txt!r}) appended {got!r}: {bad}; default_tokenizer.tokenize({'zq' + txt + 'qz'!r}) violates {conc}", {"kind": "text", "text": "zq" + txt + "qz", "tokenizer": "AhocorasickTokenizer"})
+        else:
+            rep.spurious += 1
+            rep.inconc(f"append_text lemma: model did not reproduce: {f['witness']}")
     # regression witnesses (fixed findings) through the shipped tokenizers
     toks = {"Tokenizer": T.Tokenizer(), "AhocorasickTokenizer": T.default_tokenizer}
     for s in REGRESSION:
